@@ -28,7 +28,7 @@ WALL = {"quick": 1200, "thorough": 10800}
 MAX_TIMEOUTS = {"quick": 1, "thorough": 20}
 REQUIRED = {"residues_checked": 1500, "multi_atom_residues": 800, "chiral_residues": 100, "rank3_templates": 150,
             "adversarial_angle_triples": 300, "neighbourless_residues": 50, "residues_with_built_neighbours": 300,
-            "factors": 3, "user_volume_runs": 20}
+            "factors": 3, "user_volume_runs": 20, "single_atom_user_templates": 10}
 CAP = {}
 _done = False
 
@@ -72,7 +72,8 @@ def check_molecule(bm_self, mm, pre):
     ctx = CC.CTX
     V = ctx.setdefault("c06_viol", [])
     st = ctx["stats"]
-    fudge = bm_self.fudge_coords
+    # the factor the *caller asked for* (not whatever the processor ended up with)
+    fudge = ctx.get("requested_bfudge", bm_self.fudge_coords)
     tb = ctx["templates_before"]
     for nd in mm.nodes:
         flag, cg = pre[nd]
@@ -168,7 +169,17 @@ def run_case(cid, rng, workdir):
                     fh.write("%s %.3f\n" % (rn, rng.uniform(0.4, 0.7)))
         kw["build"] = [Path(workdir) / "vol.bld"]
         bump(res, "user_volume_runs")
-    ctx_kw = {}
+    singles = [rn for rn, r in sysd["residues"].items() if len(r["atoms"]) == 1]
+    if singles and rng.random() < 0.5:
+        # user template for a one-atom residue, written away from the origin (must still be centred)
+        rn = rng.choice(singles)
+        a = sysd["residues"][rn]["atoms"][0]
+        with open(os.path.join(workdir, "tmpl.bld"), "w") as fh:
+            fh.write("[ template ]\nresname %s\n[ atoms ]\n%s %s %.3f %.3f %.3f\n[ bonds ]\n[ volumes ]\n%s %.3f\n" %
+                     (rn, a["name"], a["atype"], rng.uniform(0.5, 2), rng.uniform(0.5, 2), rng.uniform(0.5, 2), rn, rng.uniform(0.4, 0.6)))
+        kw["build"] = kw.get("build", []) + [Path(workdir) / "tmpl.bld"]
+        bump(res, "single_atom_user_templates")
+    ctx_kw = {"requested_bfudge": kw["bfudge"]}
     if cid[0] == "adv":
         advr = rng
         ctx_kw["adversarial"] = lambda x: rng.choice(ADV)(x, advr)
